@@ -319,6 +319,7 @@ static int run_cmd(char *op, int *a, int na) {
     else if (IS("setfreq")) { node.Tmr.Freq = (uint32_t)a[0]; }
     else if (IS("nmt_set")) { CONmtSetMode(&node.Nmt, (CO_MODE)a[0]); }
     else if (IS("nmt_reset")) { CONmtReset(&node.Nmt, (CO_NMT_RESET)a[0]); }
+    else if (IS("nmt_bootup")) { CONmtBootup(&node.Nmt); }
     else if (IS("nmt_get")) { ITEM("ret %d", (int)CONmtGetMode(&node.Nmt)); }
     else if (IS("get_err")) { ITEM("ret %d", (int)CONodeGetErr(&node)); }
     else if (IS("emcy_set")) {
